@@ -206,6 +206,14 @@ class Parser:
     # ---- Statements ----
 
     def _parse_statement(self) -> Optional[Node]:
+        """Parse a statement; it is located at its first token."""
+        start = self.current
+        node = self._parse_statement_at_current()
+        if node is not None and node.loc is None:
+            self._loc(node, start)
+        return node
+
+    def _parse_statement_at_current(self) -> Optional[Node]:
         """Parse a statement."""
         if self._match(TokenType.SEMICOLON):
             return EmptyStatement()
@@ -326,6 +334,14 @@ class Parser:
 
         Used by iterative block parsing to avoid recursion on nested blocks.
         """
+        start = self.current
+        node = self._parse_non_block_statement_at_current()
+        if node is not None and node.loc is None:
+            self._loc(node, start)
+        return node
+
+    def _parse_non_block_statement_at_current(self) -> Optional[Node]:
+        """Parse a statement that is not a block statement."""
         if self._match(TokenType.SEMICOLON):
             return EmptyStatement()
 
